@@ -60,3 +60,36 @@ pub fn sequences(alphabet: &[u8], max_len: usize) -> Vec<Vec<u8>> {
     }
     out
 }
+
+/// Like `arbitrary_framed` but RDH0 stays recognisable (header id 7, size 0x40, valid FEE id, priority and reserved
+/// 0), so a file starting with such a packet is accepted by the CLI's start-up check.
+pub fn recognisable_framed(link: u8, fee: u16, payload_len: usize, salt: u64) -> Packet {
+    let mut p = arbitrary_framed(link, fee, payload_len, salt);
+    p.rdh.header_id = 7;
+    p.rdh.header_size = 0x40;
+    p.rdh.priority = 0;
+    p.rdh.rdh0_reserved = 0;
+    p.rdh.system_id = 0x20;
+    p
+}
+
+pub fn recognisable_pattern_stream(pattern: &[u8], salt: u64) -> Vec<Packet> {
+    pattern
+        .iter()
+        .enumerate()
+        .map(|(i, &l)| {
+            recognisable_framed(l, fee_of_link(l), SIZE_CYCLE[(i + l as usize) % SIZE_CYCLE.len()], salt * 1000 + i as u64)
+        })
+        .collect()
+}
+
+/// The start-up check of the tool on the first 8 bytes (documented: RDH0 sanity + version range).
+pub fn rdh0_recognisable(r: &Rdh) -> bool {
+    (3..=100).contains(&r.header_id)
+        && r.header_size == 0x40
+        && r.priority == 0
+        && r.rdh0_reserved == 0
+        && (r.fee_id & 0x8CC0) == 0
+        && (r.fee_id & 0x3F) <= 47
+        && ((r.fee_id >> 12) & 7) <= 6
+}
